@@ -91,6 +91,7 @@ type Obligation struct {
 	vc     *VC
 	inputs []string // names of input constants for model extraction
 	tags   map[int]bool
+	priority bool // proved on the pinned tree: worth the long stages
 }
 
 // ---------- engine ----------
